@@ -270,6 +270,8 @@ def handleAll (c : Case) : Res := Id.run do
       match propEvents n evs (fact == "R") permRin permRi with
       | some msg => return Res.propFalse s!"step {k} ({fact}): factors: {msg}" tg
       | none => pure ()
+      if sc.p "colalone" "1" == "0" then
+        return Res.propFalse s!"step {k} ({fact}): factors: re-solving (FACTORED, IterRefine={sc.p "colalone_refine"}) the second of two right-hand sides alone gives different bits than solving it together with the first (X or berr)" tg
       let H : Held := { step := k, sc := sc, I := I, equed := eq, R := Rv, C := Cv }
       match propScaleB sc n eq Rv Cv eps with
       | some msg => return Res.propFalse s!"step {k} ({fact}): {msg}" tg
